@@ -35,7 +35,7 @@ DELIVERABLES: for each change k = 1, 2, 3 create directory {wt}/SEED/k/ containi
  - patch.diff : output of "git diff" against HEAD (paths relative to the repository root so that "git apply patch.diff" works from the root), touching only files under src/cobra
  - demo.py : a standalone script that, run as "PYTHONPATH=<some checkout>/src /venv/bin/python demo.py", prints "PROPERTY HOLDS" and exits 0 on the pristine tree, and prints "PROPERTY BROKEN: <what was observed>" and exits 1 on the patched tree. It must show a violation of the property as stated above, using only the public API (build small models in the script where possible).
  - notes.md : a few lines - what was changed, why it is a realistic slip, what specific condition it needs to manifest, and the final pytest summary line obtained with the patch applied.
-After saving each patch, restore the source ("git checkout -- src") so that the patches are independent, and confirm demo.py says PROPERTY HOLDS on the restored tree. At the end leave the worktree clean apart from SEED/ and .tmp/.
+Never use "git stash" (the stash is shared with other people's worktrees of this repository). After saving each patch, restore the source ("git checkout -- src") so that the patches are independent, and confirm demo.py says PROPERTY HOLDS on the restored tree. At the end leave the worktree clean apart from SEED/ and .tmp/.
 
 REPORT BACK (short): one line per delivered change (file/function, mechanism, trigger condition) plus the pytest summary line for each.
 """
